@@ -589,6 +589,11 @@ class Interp:
             if name.startswith('llvm.memcpy') or name.startswith('llvm.memmove'):
                 mem.move(self.conc(args[0]), self.conc(args[1]), self.conc(args[2]))
                 return None
+            if name in ('malloc', 'free') and name in self.externs:
+                r = self.externs[name](self, args, mem, cond)
+                if dest is not None:
+                    env[dest] = r
+                return None
             if name == 'malloc':
                 n = self.conc(args[0])
                 env[dest] = bv(mem.alloc(n, 'heap'), 64)
